@@ -22,6 +22,7 @@ type vC05Obs struct {
 	leakHdr    string
 	status     int
 	matched    bool
+	accepts    string
 }
 
 func vC05App(obs *vC05Obs, preOp *int, flash *[]byte) *App {
@@ -46,6 +47,9 @@ func vC05App(obs *vC05Obs, preOp *int, flash *[]byte) *App {
 			dc.Redirect().parseAndClearFlashMessages()
 		case 7:
 			panic("handler panic")
+		case 9:
+			// content negotiation over the request's Accept header (pooled parameter maps)
+			_ = c.Accepts("application/json;profile=a", "text/html")
 		}
 		return nil
 	}
@@ -78,17 +82,23 @@ func vC05App(obs *vC05Obs, preOp *int, flash *[]byte) *App {
 		obs.routePath = c.Route().Path
 		obs.leakHdr = c.GetRespHeader("X-Leak")
 		obs.matched = dc.matched
+		obs.accepts = c.Accepts("application/json;charset=utf-8", "text/html;level=1")
 		return nil
 	})
 	app.startupProcess()
 	return app
 }
 
+var vC05Accept string
+
 func vC05Request(app *App, path string, cookie []byte, host string) (status int) {
 	fctx := &fasthttp.RequestCtx{}
 	fctx.Request.Header.SetMethod("GET")
 	fctx.Request.SetRequestURI(path)
 	fctx.Request.Header.SetHost(host)
+	if vC05Accept != "" {
+		fctx.Request.Header.Set("Accept", vC05Accept)
+	}
 	if cookie != nil {
 		fctx.Request.Header.SetCookieBytesKV([]byte(FlashCookieName), cookie)
 	}
@@ -151,10 +161,19 @@ func VH_C05_isolation(caseID int) {
 			vAssume(probeCookie[i] != '"')
 		}
 	}
+	vC05Accept = ""
+	if preOp == 9 {
+		// the earlier client refuses a parameterised range, accepts another one
+		vC05Accept = []string{"application/json;profile=a;q=0, text/html", "text/html;level=2;q=0, application/json;profile=a", "application/json;profile=a"}[vChoice("preaccept", 3)]
+	}
 	if two {
 		vC05Request(appA, "/pp/"+pb+"/"+pa+"/zz", nil, "first.io")
 	}
 	vC05Request(appA, "/p/"+pa+"/"+pb, cookie, "evil.io")
+	vC05Accept = ""
+	if preOp == 9 {
+		vC05Accept = []string{"application/json;charset=utf-8", "text/html;level=1, application/json;charset=utf-8;q=0.5"}[vChoice("probeaccept", 2)]
+	}
 
 	// the probe, identical in both worlds
 	probe := "/q"
@@ -186,5 +205,6 @@ func VH_C05_isolation(caseID int) {
 	vAssert(obsA.leakHdr == obsB.leakHdr, "response-header")
 	vAssert(obsA.status == obsB.status, "status")
 	vAssert(obsA.matched == obsB.matched, "matched-flag")
+	vAssert(obsA.accepts == obsB.accepts, "negotiation")
 	vReach("compared")
 }
